@@ -655,6 +655,9 @@ class Interp:
                     self.emit("link_known", table=arena.name, node=key, side=side, child=pname)
                 return StructV(OPTION, "Some", {"0": pc})
             if p == VEC:
+                et = self.ty(t["a"][0])
+                if et["t"] == "adt" and et["p"] == NODE:
+                    return ArenaVecV(self.arena(name.lstrip("*")))    # an owned node vector (IntoIter)
                 return VecV(VecObj(name, [], base=name))
             if p == TABLE:
                 return TableV(self.arena(name.lstrip("*")))
